@@ -197,6 +197,8 @@ static void build_inits() {
 // ---------------------------------------------------------------- alphabet runs
 struct Run { std::string name; std::vector<int> recs; int depth_quick, depth_thorough; };
 static std::vector<Run> g_runs;
+static std::vector<int> g_rep_recs;      // records of the repetition family: [0] short A, ..., last = the long-name one
+static int g_rep_long = -1;
 
 static void build_runs() {
     {   Run r; r.name = "R1"; r.depth_quick = 4; r.depth_thorough = 6;
@@ -238,6 +240,14 @@ static void build_runs() {
         r.recs.push_back(rec(n5, T_AAAA, 0x040000, "2001:db8::5"));
         g_runs.push_back(r);
     }
+    // repetition family: a short record, records with names in their data, opaque data, and one with 255-octet names
+    g_rep_recs.push_back(g_runs[0].recs[0]);      // A  a -> 1.2.3.4                 (17 octets per record)
+    g_rep_recs.push_back(g_runs[0].recs[3]);      // CNAME a.b.example.com -> a
+    g_rep_recs.push_back(g_runs[1].recs[0]);      // MX
+    g_rep_recs.push_back(g_runs[1].recs[1]);      // SOA
+    g_rep_recs.push_back(g_runs[1].recs[2]);      // TXT
+    g_rep_long = rec(n_255(), T_NS, 0x0101, n_l63());    // 255-octet owner + 77-octet name as data: 342 octets per record
+    g_rep_recs.push_back(g_rep_long);
     const char* sub[3] = {"R3-ip6arpa", "R3-255octets", "R3-label63"};
     for (int n = 0; n < 3; ++n) {
         Run r; r.name = sub[n]; r.depth_quick = 4; r.depth_thorough = 6; r.recs = byname[n];
@@ -307,18 +317,19 @@ static DNS parse_exact(const Bytes& w) {      // from an exactly sized heap bloc
     catch (...) { free(blk); throw; }
 }
 
+static std::string g_phase_tag;               // prefix of the phase in signatures ("", "rep-", "type-", "type-moved-" ...)
 static std::string oracle(const S& s) {
     DNS probe(s.d);                            // copy: records_data_ in an exactly sized block (no slack capacity)
-    std::string e = check_sections(probe, s.m, "edit");
+    std::string e = check_sections(probe, s.m, g_phase_tag + "edit");
     if (!e.empty()) return e;
     Bytes w;
     try { w = probe.serialize(); }
     catch (std::exception& x) { return "dns:serialize:throws:" + demangle(typeid(x).name()) + "|" + x.what(); }
     try {
         DNS re = parse_exact(w);
-        return check_sections(re, s.m, "reparse");
+        return check_sections(re, s.m, g_phase_tag + "reparse");
     } catch (exception_base& x) {
-        return "dns:reparse:constructor-throws:" + demangle(typeid(x).name()) + "|" + std::string(x.what());
+        return "dns:" + g_phase_tag + "reparse:constructor-throws:" + demangle(typeid(x).name()) + "|" + std::string(x.what());
     } catch (std::exception& x) {
         return "exc:" + demangle(typeid(x).name()) + ":DNS::DNS|" + x.what();
     }
@@ -341,7 +352,7 @@ static std::string step(S& s, const Op& op) {
             else s.d.add_additional(res);
         }
     } catch (std::exception& x) {
-        return std::string("dns:edit:") + ADD[op.sec] + ":throws:" + demangle(typeid(x).name()) + "|" + x.what();
+        return "dns:" + g_phase_tag + "edit:" + ADD[op.sec] + ":throws:" + demangle(typeid(x).name()) + "|" + x.what();
     }
     s.m.sec[op.sec] += char(op.rec);
     if (Mon::errors) return Mon::first + "|" + Mon::first_detail + " (inside " + ADD[op.sec] + ")";
@@ -797,6 +808,322 @@ static void run_mal(int part, int parts) {
     });
 }
 
+// ================================================================== repetition family: long histories of ONE operation
+// The BFS depth is small; whatever depends on a counter or an offset crossing a byte boundary (256 records in a section,
+// offsets 255/256, 0x3fff/0x4000 = the reach of a compression pointer, message size 512 / 65535) needs a long history.
+// One sequence = (initial message, add_* operation, record): the operation is applied n = 1..N times and the FULL
+// coherence oracle (header counts = section sizes = number inserted, getters = inserted records in order, the same
+// after serialize -> parse) runs after EVERY step.  Mixed with it: at every n, on a copy, one insertion into every
+// EARLIER section (relocation of the n records), again followed by the full oracle.
+struct RepCfg { int init, sec, rec, n; };
+static std::vector<RepCfg> rep_configs(bool thorough) {
+    std::vector<RepCfg> v;
+    int inits[3] = {0, 2, 3};           // empty, compressed, ptr2ptr-soa-mx
+    for (int ii = 0; ii < 3; ++ii)
+        for (int sec = 0; sec < 4; ++sec)
+            for (size_t k = 0; k < g_rep_recs.size(); ++k) {
+                bool lng = g_rep_recs[k] == g_rep_long;
+                // quick: 300 of everything (count 255 -> 256; the long record passes 0x3fff at n = 48 and 65535 at n = 192)
+                // thorough: 1100 short records (count passes 1024, a 17-octet record passes offset 0x3fff at n = 964), 400 long ones
+                int n = thorough ? (lng ? 400 : 1100) : 300;
+                v.push_back(RepCfg{inits[ii], sec, g_rep_recs[k], n});
+            }
+    return v;
+}
+static std::string rep_case(const RepCfg& c, int n, int fsec = -1, int frec = -1) {
+    std::string k = "kind=rep tier=" + A.tier + " init=" + str(c.init) + " sec=" + str(c.sec) + " rec=" + str(c.rec) + " n=" + str(n);
+    if (fsec >= 0) k += " fsec=" + str(fsec) + " frec=" + str(frec);
+    return k;
+}
+// Octets one record of the table takes on the wire when libtins encodes it (no compression).
+static uint32_t rec_wire_size(const Rec& r, bool question) {
+    uint32_t n = (uint32_t)wire_name(r.name).size();
+    if (question) return n + 4;
+    n += 10;
+    if (r.type == T_A) return n + 4;
+    if (r.type == T_AAAA) return n + 16;
+    if (r.type == T_NS || r.type == T_CNAME || r.type == T_PTR) return n + (uint32_t)wire_name(r.din).size();
+    if (r.type == T_MX) return n + 2 + (uint32_t)wire_name(r.din).size();
+    return n + (uint32_t)r.din.size();
+}
+// The reach of a compression pointer is 14 bits.  For a parsed message: (target offset, section the target lies in) of
+// every pointer; an insertion into section s moves every target that lies in a later section.  Once a target would have
+// to move past 0x3fff the wire format cannot express the message any more with that pointer: an implementation has to
+// expand the name or refuse the insertion (libtins exception, message left as it was).  Anything else is reported as
+// dns:pointer-target-beyond-0x3fff:*.
+struct PtrTargets {
+    std::vector<std::pair<uint32_t, int> > t;
+    bool beyond(const uint32_t ins[4]) const {
+        for (auto& x : t) {
+            uint32_t sh = 0;
+            for (int s = 0; s < x.second; ++s) sh += ins[s];
+            if (x.first + sh > 0x3fff) return true;
+        }
+        return false;
+    }
+};
+static PtrTargets init_targets(const Init& I, const DNS& d) {
+    PtrTargets P;
+    uint32_t b[3] = {d.answers_idx_ + 12, d.authority_idx_ + 12, d.additional_idx_ + 12};
+    for (size_t at : I.ptrs) {
+        uint32_t t = (uint32_t)(I.wire[at] & 0x3f) << 8 | I.wire[at + 1];
+        P.t.push_back(std::make_pair(t, t < b[0] ? 0 : t < b[1] ? 1 : t < b[2] ? 2 : 3));
+    }
+    return P;
+}
+// judges one insertion that makes a pointer target unreachable; returns "" (coped / cleanly refused: *refused set) or a violation
+static std::string judge_at_pointer_limit(const S& s, const std::string& e, bool* refused) {
+    *refused = false;
+    if (e.empty()) return "";
+    std::string flat = e;
+    for (auto& ch : flat) if (ch == '|') ch = ' ';
+    if (e.find(":throws:Tins::") != std::string::npos && e.find(":add_") != std::string::npos) {
+        std::string u = oracle(s);           // the model was not advanced: the message has to be what it was
+        if (u.empty()) { *refused = true; return ""; }
+        for (auto& ch : u) if (ch == '|') ch = ' ';
+        return "dns:pointer-target-beyond-0x3fff:refused-but-message-changed|insertion refused (" + flat + ") but the message is no longer what it was: " + u;
+    }
+    return "dns:pointer-target-beyond-0x3fff:message-corrupted|a compression pointer of the parsed message would have to address an offset above 0x3fff; "
+           "the insertion was neither refused nor were the names expanded: " + flat;
+}
+
+// returns "" or "signature|detail"; *kase names the failing step.  r_*: replay of one recorded case only.
+static std::string run_rep(const RepCfg& c, uint64_t idx, std::string* kase, bool replay = false, int r_fsec = -1, int r_frec = -1) {
+    S s = make_init(g_inits[c.init]);
+    Op op = {c.sec, c.rec};
+    PtrTargets P = init_targets(g_inits[c.init], s.d);
+    uint32_t ins[4] = {0, 0, 0, 0};
+    g_phase_tag = "rep-";
+    for (int n = 1; n <= c.n; ++n) {
+        uint32_t ins2[4] = {ins[0], ins[1], ins[2], ins[3]};
+        ins2[c.sec] += rec_wire_size(g_recs[c.rec], c.sec == 0);
+        bool limit = P.beyond(ins2);
+        if (limit && !A.thorough()) { R.count("repetition_sequences_stopped_at_pointer_limit_in_quick"); break; }   // thorough tier goes on
+        *kase = rep_case(c, n);
+        set_case(idx, "rep", *kase);
+        Mon::reset();
+        g_full = true;
+        uint32_t prev = s.d.header_size();
+        std::string e = step(s, op);
+        if (e.empty() && Mon::errors) e = Mon::first + "|" + Mon::first_detail;
+        R.count("evaluations"); R.count("repetition_steps");
+        if (limit) {
+            bool refused;
+            R.count("repetition_insertions_at_pointer_limit");
+            e = judge_at_pointer_limit(s, e, &refused);
+            if (refused) { R.count("repetition_insertions_refused_at_pointer_limit"); break; }
+        }
+        if (!e.empty()) { g_phase_tag.clear(); return e + " [after " + str(n) + " x " + ADD[c.sec] + ", message " + str(s.d.header_size()) + " octets]"; }
+        uint32_t size = s.d.header_size();
+        ins[c.sec] += size - prev;
+        R.maxv("repetition_max_records_in_one_section", g_inits[c.init].sec[c.sec].size() + n);
+        R.maxv("repetition_max_message_octets", size);
+        if (!replay) {
+            if (n == 256) R.count("repetition_crossed_256_records");
+            if (n == 1024) R.count("repetition_crossed_1024_records");
+            if (prev <= 0x3fff && size > 0x3fff) R.count("repetition_crossed_offset_0x3fff");
+            if (prev <= 65535 && size > 65535) R.count("repetition_crossed_65535_octets");
+            if (n == 256 || n == 1 || (prev <= 0x3fff && size > 0x3fff) || (prev <= 65535 && size > 65535))
+                R.dist("distinct_nontrivial", fnv(rep_case(c, 0) + "|" + str(n == 256) + str(size > 0x3fff) + str(size > 65535)));
+        }
+        // relocation: one insertion in front of the n records, into every earlier section, on a copy
+        g_phase_tag = "rep-moved-";
+        for (int fsec = 0; fsec < c.sec; ++fsec)
+            for (int v = 0; v < 2; ++v) {
+                int frec = v == 0 ? g_rep_recs[0] : c.rec;
+                if (replay && (n != c.n || fsec != r_fsec || frec != r_frec)) continue;
+                if (v == 1 && frec == g_rep_recs[0]) continue;
+                uint32_t ins3[4] = {ins[0], ins[1], ins[2], ins[3]};
+                ins3[fsec] += rec_wire_size(g_recs[frec], fsec == 0);
+                bool lim = P.beyond(ins3);
+                if (lim && !A.thorough()) { R.count("repetition_front_insertions_skipped_at_pointer_limit_in_quick"); continue; }
+                S t(s);
+                *kase = rep_case(c, n, fsec, frec);
+                set_case(idx, "rep", *kase);
+                Mon::reset();
+                g_full = true;
+                e = step(t, Op{fsec, frec});
+                if (e.empty() && Mon::errors) e = Mon::first + "|" + Mon::first_detail;
+                R.count("evaluations"); R.count("repetition_front_insertions");
+                if (lim) {
+                    bool refused;
+                    R.count("repetition_insertions_at_pointer_limit");
+                    e = judge_at_pointer_limit(t, e, &refused);
+                    if (refused) R.count("repetition_insertions_refused_at_pointer_limit");
+                }
+                if (!e.empty()) { g_phase_tag.clear(); return e + " [" + str(n) + " x " + ADD[c.sec] + " then one " + ADD[fsec] + ", message " + str(t.d.header_size()) + " octets]"; }
+            }
+        g_phase_tag = "rep-";
+        if ((n & 31) == 0 && deadline_reached()) { R.flags["exhaustive"] = false; break; }
+    }
+    g_phase_tag.clear();
+    *kase = "";
+    return "";
+}
+static void run_rep_job(int part, int parts) {
+    auto v = rep_configs(A.thorough());
+    for (size_t i = 0; i < v.size(); ++i) {
+        if ((int)((i + i / g_rep_recs.size()) % parts) != part || i < A.skip) continue;   // spreads the long-name sequences over the jobs
+        if (deadline_reached()) { R.flags["exhaustive"] = false; break; }
+        std::string kase;
+        arm_watchdog(1200);
+        std::string e = run_rep(v[i], i, &kase);
+        disarm_watchdog();
+        R.count("repetition_sequences");
+        if (!e.empty()) { size_t bar = e.find('|'); R.violation(e.substr(0, bar), bar == std::string::npos ? "" : e.substr(bar + 1), kase); }
+        else R.count("repetition_sequences_completed");
+        if (i == 5) R.sample(jstr(rep_case(v[i], v[i].n, 0, g_rep_recs[0]) + " (last step of a sequence: " + str(v[i].n) + " x add_query of the 255-octet name)"));
+    }
+}
+
+// ================================================================== type sweep: the record TYPE is a 16-bit domain
+// Reference classification, taken from the RFCs and from what libtins documents for DNS::resource::data(), NOT from
+// DNS::contains_dname / convert_records:
+//   A (1, RFC 1035 3.4.1): 4-octet address, API form = dotted quad.   AAAA (28, RFC 3596): 16 octets, API form = text.
+//   NS (2), CNAME (5), PTR (12) (RFC 1035 3.3): one domain name, API form = dotted name.
+//   MX (15): 16-bit preference + domain name, API form = dotted name + preference().
+//   SOA (6): API form = mname, rname as uncompressed wire names + 20 octets (what soa_record produces / consumes).
+//   Types whose RDATA contains domain names but which neither the property statement nor the libtins documentation
+//   lists: MD 3, MF 4, MB 7, MG 8, MR 9, MINFO 14 (RFC 1035), RP 17, AFSDB 18 (RFC 1183), RT 21, SIG 24 (RFC 2535),
+//   PX 26 (RFC 2163), NXT 30, SRV 33 (RFC 2782), NAPTR 35 (RFC 3403), KX 36 (RFC 2230), A6 38, DNAME 39 (RFC 6672),
+//   RRSIG 46, NSEC 47 (RFC 4034): libtins may present them as raw octets or (single-name types) as a dotted name, but
+//   it has to do the same on the way in and on the way out.
+//   Every other value 0..65535 (TXT 16, NULL 10, OPT 41, unassigned, private use): opaque, RDATA comes back byte-identical.
+enum TClass { TC_OPAQUE, TC_A, TC_AAAA, TC_NAME, TC_MX, TC_SOA, TC_UNLISTED_NAMES };
+static TClass ref_class(unsigned t) {
+    switch (t) {
+        case 1: return TC_A;
+        case 28: return TC_AAAA;
+        case 2: case 5: case 12: return TC_NAME;
+        case 15: return TC_MX;
+        case 6: return TC_SOA;
+        case 3: case 4: case 7: case 8: case 9: case 14: case 17: case 18: case 21: case 24: case 26: case 30: case 33:
+        case 35: case 36: case 38: case 39: case 46: case 47: return TC_UNLISTED_NAMES;
+        default: return TC_OPAQUE;
+    }
+}
+static const unsigned SPECIAL_TYPES[] = {1, 2, 5, 6, 12, 15, 28, 39};      // what libtins' own switch statements single out
+
+static std::vector<std::string> opaque_blobs() {
+    std::vector<std::string> b;
+    b.push_back(std::string());                                   // empty
+    b.push_back(std::string("\x00", 1));                          // one octet (would be the root name)
+    b.push_back(std::string("\xc0\x0c"));                         // looks like a pointer to the first name of the message
+    b.push_back(std::string("\xc0\xff"));                         // looks like a pointer further into / past the message
+    b.push_back(std::string("\x3f" "abc"));                       // looks like a 63-octet label running past the end
+    b.push_back(std::string("\x05hello\x03" "abc\x00\x01", 12)); // looks like a name followed by one more octet
+    b.push_back(std::string("a.b.example.com"));                  // looks like the dotted API form of a name
+    return b;
+}
+struct TVariant { std::string din, dout; unsigned pref; };
+static std::vector<TVariant> variants_for(TClass c, bool as_name = false) {
+    std::vector<TVariant> v;
+    auto add = [&](const std::string& a, const std::string& b, unsigned p = 0) { TVariant x; x.din = a; x.dout = b; x.pref = p; v.push_back(x); };
+    if (c == TC_A) { add("1.2.3.4", "1.2.3.4"); add("255.0.10.200", "255.0.10.200"); }
+    else if (c == TC_AAAA) { add("2001:db8::1", "2001:db8::1"); add("::", "::"); }
+    else if (c == TC_NAME || c == TC_MX || as_name) {
+        add("a", "a", c == TC_MX ? 7 : 0); add("a.b.example.com", "a.b.example.com", c == TC_MX ? 0xfffe : 0); add("", "", c == TC_MX ? 1 : 0);
+    } else if (c == TC_SOA) {
+        std::string a = soa_data("ns.example.com", "admin.example.com", 1, 2, 3, 4, 5), b = soa_data("", "x", 0xffffffffu, 0, 0xc00c0000u, 0x3f, 0);
+        add(a, a); add(b, b);
+    } else for (auto& b : opaque_blobs()) add(b, b);
+    return v;
+}
+static std::string type_case(unsigned t, int sec) { return "kind=type tier=" + A.tier + " t=" + str(t) + " sec=" + str(sec); }
+
+// one (type, section, variant): (a) fresh message + add_* -> getters, (b) serialize -> parse -> getters, (c) the parsed
+// message + one insertion into an earlier section (update_records walks over the record) -> getters, -> parse -> getters
+static std::string type_variant(unsigned t, int sec, const TVariant& v) {
+    size_t base = g_recs.size();
+    int id = rec(sec == 0 ? "t.example.com" : "o.example.com", t, 0x01020304, v.din, v.dout, v.pref);
+    std::string err;
+    S s;
+    Mon::reset();
+    g_phase_tag = "type-";
+    g_full = true;
+    err = step(s, Op{sec, id});
+    if (err.empty() && Mon::errors) err = Mon::first + "|" + Mon::first_detail;
+    if (err.empty() && sec > 0) {
+        Bytes w = s.d.serialize();
+        g_phase_tag = "type-moved-";
+        for (int fsec = sec - 1; fsec >= 0 && err.empty(); fsec = (fsec == 0 || sec - 1 == 0) ? -1 : 0) {   // the section right before, and the question
+            S m;
+            m.d = parse_exact(w);
+            m.m = s.m;
+            Mon::reset();
+            g_full = true;
+            err = step(m, Op{fsec, g_rep_recs[0]});
+            if (err.empty() && Mon::errors) err = Mon::first + "|" + Mon::first_detail;
+            R.count("type_sweep_relocations");
+        }
+    }
+    g_phase_tag.clear();
+    g_recs.resize(base);
+    return err;
+}
+// all variants of one (type, section); "" or "signature|detail"
+static std::string type_group(unsigned t, int sec) {
+    TClass c = ref_class(t);
+    if (sec == 0) {                      // a question has no data: name / type / class only (DNS::QueryType values are limited to 0..63)
+        TVariant v; v.pref = 0;
+        R.count("evaluations"); R.count("type_sweep_cases");
+        return type_variant(t, 0, v);
+    }
+    std::string first;
+    for (int attempt = 0; attempt < 2; ++attempt) {
+        // types with names that nobody lists: raw octets (attempt 0) or, failing that, dotted names (attempt 1) - but consistently
+        if (attempt == 1 && (c != TC_UNLISTED_NAMES || first.empty())) break;
+        std::string err;
+        for (auto& v : variants_for(c, attempt == 1)) {
+            R.count("evaluations"); R.count("type_sweep_cases");
+            std::string e = type_variant(t, sec, v);
+            if (!e.empty()) {
+                err = e + " [type " + str(t) + " through " + ADD[sec] + ", data '" + show(v.din, 24) + "', reference class " +
+                      (c == TC_OPAQUE ? "opaque" : c == TC_UNLISTED_NAMES ? "names, not listed (raw octets or dotted name, but the same in both directions)" : "listed") + "]";
+                break;
+            }
+        }
+        if (err.empty()) { if (attempt == 1) R.count("type_sweep_unlisted_shown_as_name"); return ""; }
+        if (first.empty()) first = err;
+    }
+    return first;
+}
+static std::vector<unsigned> sweep_types(bool thorough) {
+    std::vector<unsigned> v;
+    if (thorough) { for (unsigned t = 0; t < 65536; ++t) v.push_back(t); return v; }
+    std::vector<bool> in(65536, false);
+    for (unsigned t = 0; t < 1024; ++t) in[t] = true;
+    for (unsigned t = 0xff00; t < 65536; ++t) in[t] = true;
+    for (unsigned sp : SPECIAL_TYPES) {
+        for (unsigned t = sp % 32; t < 65536; t += 32) in[t] = true;            // equal to a special type mod 32 (hence also mod 64, 256, ...) over the whole range
+        for (int b = 0; b < 16; ++b) in[sp ^ (1u << b)] = true;                 // one bit away
+    }
+    for (unsigned t = 0; t < 65536; ++t) if (in[t]) v.push_back(t);
+    return v;
+}
+static void run_type_job(int part, int parts) {
+    auto types = sweep_types(A.thorough());
+    for (size_t i = 0; i < types.size(); ++i) {
+        if ((int)(i % parts) != part) continue;
+        unsigned t = types[i];
+        if ((i & 255) == 0 && deadline_reached()) { R.flags["exhaustive"] = false; break; }
+        R.count("type_sweep_types");
+        for (int sec = 0; sec < 4; ++sec) {
+            if (sec == 0 && t > 63) continue;
+            uint64_t idx = (uint64_t)t * 4 + sec;
+            if (idx < A.skip) continue;
+            std::string kase = type_case(t, sec);
+            set_case(idx, "type", kase);
+            arm_watchdog(60);
+            std::string e = type_group(t, sec);
+            disarm_watchdog();
+            if (!e.empty()) { size_t bar = e.find('|'); R.violation(e.substr(0, bar), bar == std::string::npos ? "" : e.substr(bar + 1), kase); }
+            R.dist("distinct_nontrivial", fnv("type|" + str((int)ref_class(t)) + "|" + str(sec) + "|" + str(e.empty())));
+        }
+        if (t == 16 || t == 33) R.sample(jstr(type_case(t, 3) + " (" + str(variants_for(ref_class(t)).size()) + " data variants, each: add, read, serialize/parse, relocate twice)"));
+    }
+}
+
 // ================================================================== jobs
 struct Cfg { int init, run; double weight; };
 static std::vector<Cfg> configs(bool thorough) {
@@ -841,12 +1168,12 @@ int main(int argc, char** argv) {
     }
     build_inits();
     build_runs();
-    const int MAL_Q = 4, MAL_T = 12;
-    int nq = (int)configs(false).size() + MAL_Q, nt = (int)configs(true).size() + MAL_T;
+    const int MAL_Q = 4, MAL_T = 12, REP_Q = 6, REP_T = 12, TYPE_Q = 8, TYPE_T = 16;
+    int nq = (int)configs(false).size() + MAL_Q + REP_Q + TYPE_Q, nt = (int)configs(true).size() + MAL_T + REP_T + TYPE_T;
     return run_main(argc, argv, nq, nt,
         [](int job) {
             auto v = configs(A.thorough());
-            int nmal = A.thorough() ? 12 : 4;
+            int nmal = A.thorough() ? 12 : 4, nrep = A.thorough() ? 12 : 6, ntype = A.thorough() ? 16 : 8;
             if (job < (int)v.size()) {
                 if (A.skip) {   // restarted after a crash inside this search: the crash is already recorded, do not repeat it
                     R.flags["exhaustive"] = false;
@@ -860,7 +1187,9 @@ int main(int argc, char** argv) {
                     R.sample(jstr(s));
                     R.sample(jstr("compressed initial message: " + hex(g_inits[2].wire)));
                 }
-            } else run_mal(job - (int)v.size(), nmal);
+            } else if (job < (int)v.size() + nmal) run_mal(job - (int)v.size(), nmal);
+            else if (job < (int)v.size() + nmal + nrep) run_rep_job(job - (int)v.size() - nmal, nrep);
+            else run_type_job(job - (int)v.size() - nmal - nrep, ntype);
         },
         [](const std::string& kase) -> int {
             auto kv = parse_kv(kase);
@@ -891,6 +1220,27 @@ int main(int argc, char** argv) {
                 });
                 if (rc == 2) printf("no such case\n");
                 return rc;
+            }
+            if (kv["kind"] == "rep") {
+                RepCfg c = {atoi(kv["init"].c_str()), atoi(kv["sec"].c_str()), atoi(kv["rec"].c_str()), atoi(kv["n"].c_str())};
+                if (c.init < 0 || c.init >= (int)g_inits.size() || c.sec < 0 || c.sec > 3 || c.rec < 0 || c.rec >= (int)g_recs.size() || c.n < 1) { printf("no such case\n"); return 2; }
+                std::string k2;
+                int fsec = kv.count("fsec") ? atoi(kv["fsec"].c_str()) : -1, frec = kv.count("frec") ? atoi(kv["frec"].c_str()) : -1;
+                std::string e = run_rep(c, 0, &k2, true, fsec, frec);
+                printf("initial message '%s', %d x %s of record %d (%s, type %d)%s\n", g_inits[c.init].name.c_str(), c.n, ADD[c.sec], c.rec,
+                       show(g_recs[c.rec].name, 30).c_str(), g_recs[c.rec].type, fsec >= 0 ? (std::string(", then one ") + ADD[fsec]).c_str() : "");
+                if (!e.empty()) { printf("violation reproduced at %s: %s\n", k2.c_str(), e.c_str()); return 1; }
+                printf("sequence replayed, all invariants hold at every step\n");
+                return 0;
+            }
+            if (kv["kind"] == "type") {
+                unsigned t = (unsigned)atoi(kv["t"].c_str()); int sec = atoi(kv["sec"].c_str());
+                if (t > 65535 || sec < 0 || sec > 3) { printf("no such case\n"); return 2; }
+                std::string e = type_group(t, sec);
+                printf("type %u through %s\n", t, ADD[sec]);
+                if (!e.empty()) { printf("violation reproduced: %s\n", e.c_str()); return 1; }
+                printf("no violation\n");
+                return 0;
             }
             printf("unknown case kind\n");
             return 2;
